@@ -60,6 +60,7 @@ def groups(tier):
         out.append(('jac[%s]' % method, ('jac', method, dims(tier), [2, 4] if method in ('central', 'forward', 'complex') else [2])))
     out.append(('directionaldiff', ('dd',)))
     out.append(('integer-x', ('intx',)))
+    out.append(('gradient-layout', ('layout',)))
     return out
 
 
@@ -272,7 +273,83 @@ def run_intx():
     return {}
 
 
+def run_layout():
+    """Gradient / Jacobian given an x with more than one axis: the variables are the elements of x in C (row-major) order
+    whatever the memory layout of x is -- every evaluation point differs from x.ravel() in at most one coordinate"""
+    with fd_env(names=ALL) as mm:
+        core, mc = mm['core'], mm['mc']
+        q = real('q'); r = Recip(q)
+        for method in ('central', 'forward', 'complex'):
+            for shape, layout in [((2, 2), 'C'), ((2, 2), 'transposed-view'), ((2, 3), 'transposed-view'), ((2, 2), 'F'), ((3,), 'reversed-view')]:
+                CTX.reset()
+                mm['fd'].FD_RULES = SymKeyDict()
+                n = int(np.prod(shape))
+                if layout == 'C':
+                    base = np.empty(shape, dtype=object); base.ravel()[:] = [real('x%d' % j) for j in range(n)]; x = base.view(SymArr)
+                elif layout == 'transposed-view':
+                    base = np.empty(shape[::-1], dtype=object); base.ravel()[:] = [real('x%d' % j) for j in range(n)]; x = base.T.view(SymArr)
+                elif layout == 'F':
+                    base = np.empty(shape, dtype=object, order='F'); base.ravel(order='K')[:] = 0
+                    for j, idx in enumerate(np.ndindex(shape)):
+                        base[idx] = real('x%d' % j)
+                    x = base.view(SymArr)
+                else:
+                    base = np.empty(shape, dtype=object); base[:] = [real('x%d' % j) for j in range(n)]; x = base[::-1].view(SymArr)
+                xC = [lift(x[idx]) for idx in np.ndindex(shape)]      # row-major order of the elements of x
+                A = [real('a%d' % j) for j in range(n)]
+                calls = []
+
+                def f(z):
+                    calls.append(z)
+                    if isinstance(z, mc.Bicomplex):
+                        return mc.Bicomplex(sum((A[j] * asobj(z.z1)[j] for j in range(n)), R(0)), sum((A[j] * asobj(z.z2)[j] for j in range(n)), R(0)))
+                    return sum((A[j] * asobj(z)[j] for j in range(n)), R(0))
+                gen = StubGen(n, 6, r, q)
+                for klass in ('Gradient',):
+                    del calls[:]
+                    obj = getattr(core, klass)(f, step=gen, method=method)
+                    tag = '%s,%s,shape%s,%s:' % (klass, method, shape, layout)
+                    with warnings.catch_warnings():
+                        warnings.simplefilter('ignore')
+                        paths = explore(lambda: obj(x), pre=[q.t > 0, q.t < 1] + [z3.Real('h%d' % j) > 0 for j in range(n)], max_paths=16)
+                    ok = len(paths) == 1 and paths[0].exc is None
+                    solve.fact(tag + 'runs-on-a-single-path', ok, note=str([repr(p.exc)[:150] for p in paths if p.exc][:1]))
+                    if not ok:
+                        continue
+                    solve.fact(tag + 'f-evaluated', len(calls) > 0)
+                    for ci, z in enumerate(calls):
+                        zz = [C.lift(lift(e)) for e in asobj(z).ravel()]
+                        if len(zz) != n:
+                            solve.fact(tag + 'call%d:argument-has-%d-coordinates' % (ci, n), False, note=str(len(zz))); continue
+                        nm = tag + 'call%d:differs-from-x.ravel()-in-at-most-one-coordinate' % ci
+                        ident = [z3.is_rational_value(z3.simplify(zz[j].re.t - xC[j].t)) and z3.simplify(zz[j].re.t - xC[j].t).as_fraction() == 0 and
+                                 z3.is_rational_value(z3.simplify(zz[j].im.t)) and z3.simplify(zz[j].im.t).as_fraction() == 0 for j in range(n)]
+                        if sum(1 for v in ident if not v) <= 1:
+                            solve.fact(nm, True, note='the other coordinates are the terms of x.ravel() themselves')
+                            continue
+                        # more than one coordinate is a different term: evaluate at an admissible rational point
+                        from fractions import Fraction
+                        from .pipeline import free_syms
+                        assign = {}
+                        for k_, v_ in enumerate(sorted(free_syms(*([t.re.t for t in zz] + [t.im.t for t in zz] + [t.t for t in xC])))):
+                            assign[v_] = Fraction(1, 2) if v_ == 'q' else Fraction(3 + 2 * k_, 7 + k_)
+                        try:
+                            interp = solve.default_interp()
+                            diff = [j for j in range(n) if solve.evaluate(zz[j].re.t - xC[j].t, assign, interp) != 0 or solve.evaluate(zz[j].im.t, assign, interp) != 0]
+                        except Exception:
+                            diff = None
+                        if diff is not None and len(diff) >= 2:
+                            solve.record(nm, 'refuted', 'closed-term evaluation under a concrete interpretation', 0.0,
+                                         {k_: str(v_) for k_, v_ in assign.items()}, 'vc', note='coordinates %s differ from x.ravel()' % diff)
+                            continue
+                        same = [z3.And(zz[j].re.t == xC[j].t, zz[j].im.t == 0) for j in range(n)]
+                        solve.prove(nm, z3.Or(*[z3.And(*[same[j] for j in range(n) if j != i]) for i in range(n)]), paths[0].hyps, 20000)
+    return {}
+
+
 def run_group(args):
+    if args[0] == 'layout':
+        return run_layout()
     if args[0] == 'intx':
         return run_intx()
     if args[0] == 'jac':
@@ -283,6 +360,8 @@ def run_group(args):
 def replay_case(ob):
     import re
     nm = ob['name']
+    if nm.startswith('gradient-layout/'):
+        return dict(kind='C03.layout')
     mm = re.search(r'integer-x/(\w+),(\w+):', nm)
     if mm:
         return dict(kind='common.intx', klass=mm.group(1), method=mm.group(2), f='vec2')
